@@ -154,6 +154,6 @@ def stream_cases(ctx: Ctx, s, n, rng):
 def run(ctx: Ctx):
     run_witnesses(ctx)
     s = Stream(ctx, "random trees with internal + external imports x option sets")
-    stream_cases(ctx, s, ctx.size(1200, 10000), ctx.rng("c10"))
+    stream_cases(ctx, s, ctx.size(1200, 30000), ctx.rng("c10"))
     s.finish()
     return RULE
